@@ -5796,7 +5796,8 @@ func (t *Terminal) Loop() error {
 				}
 			case actToggleSearch:
 				t.paused = !t.paused
-				changed = !t.paused
+				// Do not lose the request of an earlier action of the same key
+				changed = changed || !t.paused
 				if !t.paused {
 					t.endStaleOverride()
 				}
